@@ -6,7 +6,7 @@ From Coq Require Import List String.
 From PV Require Import Gen.PinsC06.
 Import ListNotations.
 Theorem hand_modelled_sources_unchanged_C06 : PinsC06.pins = [
-  ("rust/src/python/helpers.rs::precise_diff"%string, "6066280b7a48ef55954b"%string);
+  ("rust/src/python/helpers.rs::precise_diff"%string, "dd738cda1346dff45577"%string);
   ("rust/src/python/helpers.rs::get_offset"%string, "05f1a84feeed6974c6c7"%string);
   ("rust/src/python/helpers.rs::get_tz_name"%string, "996374750089f07601b2"%string);
   ("rust/src/helpers.rs::day_number"%string, "773670d9b9b4689c19c3"%string);
